@@ -3,7 +3,7 @@ import os
 from vcommon import Check
 
 c = Check("C06")
-c.translate(needed=["Gen_C06.v"])
+c.translate(needed=["Gen_C06.v", "Gen_C06ccitt.v"])
 c.coq(["C06"], "C06", "Prop_C06.v")
 drv = c.model("C06")
 h = c.harness("c06")
@@ -69,7 +69,8 @@ c.finish(
     assumptions=[
         "bytes are < 256 (wf); predictor input consists of whole rows",
         "chain_rt: at most 8 filters (maxFilterChainLength, GetFilters rejects longer chains); each stage satisfies "
-        "dec(MakeFilter(Info s))(enc s x) = x - proved for ASCIIHex, ASCII85, RunLength, LZW, PNG and TIFF predictors; "
+        "dec(MakeFilter(Info s))(enc s x) = x - proved for ASCIIHex, ASCII85, RunLength, LZW, PNG and TIFF predictors "
+        "and CCITTFax with K = 0 (g3_1d_rt: rows of ceil(Columns/8) bytes with zero padding bits, at most Rows rows); "
         "assumed for Flate (zlib) and CCITTFax with K != 0",
         "MakeFilter treats an empty parameter dictionary like a missing one (every parse function only looks keys up)",
         "Go ints are 64 bit (flate_ints / int_ok)",
@@ -78,7 +79,10 @@ c.finish(
         "hand-written Gallina models coq/C06/{AHx,A85,RunLen,LZW,Predict,Chain,FilterParams}.v of filter.go, "
         "internal/filter/{asciihex,ascii85,runlength,lzw,predict}, appendFilter/GetFilters - tied by cross round trip, "
         "decode agreement on damaged encodings and parameter/chain observations",
-        "zlib (compress/zlib) and the CCITT coder are not modelled: only their parameters and their place in a chain",
+        "coq/C06/CCITT.v: Group 3 one-dimensional coding (K = 0) with the code tables translated from "
+        "internal/filter/ccittfax/tables.go (Gen_C06ccitt.v), tied by cross round trip on images and damaged code streams",
+        "zlib (compress/zlib) and two-dimensional CCITT coding (K != 0) are not modelled: only their parameters and "
+        "their place in a chain; their round trips are tested on the implementation",
     ],
     partial=[
     ],
